@@ -132,6 +132,10 @@ func TestVerifFpChild(t *testing.T) {
 							probe := &function{oldEnv: old, newEnv: cur}
 							if eq, _, _, err := probe.diffEnv(); err == nil {
 								r.Same = &eq
+							} else {
+								// dawn cannot compare the two environments: the next build of this
+								// target fails with this error
+								r.Outcome, r.Msg = "error", "comparing with the previous environment: "+err.Error()
 							}
 						}
 					}
@@ -277,6 +281,9 @@ func TestVerifFp(t *testing.T) {
 			again, _ := fpRunChild(exe, dir, "", stamps)
 			if again != nil && again.Load == "ok" {
 				for _, r := range again.Results {
+					if r.Outcome != "ok" && fps[r.Target] != "" {
+						events = append(events, map[string]any{"ev": "Fingerprint", "prog": c.ID, "feature": c.Feature + "/reload", "target": r.Target, "outcome": r.Outcome, "msg": r.Msg})
+					}
 					if r.Outcome == "ok" && fps[r.Target] != "" {
 						events = append(events, map[string]any{"ev": "FpPair", "prog": c.ID, "feature": c.Feature, "target": r.Target, "kind": "reload", "equal": fpSame(r, fps)})
 					}
